@@ -4,6 +4,19 @@ VERIF = os.path.dirname(os.path.dirname(os.path.abspath(__file__)))
 ALL = ["C%02d" % i for i in range(1, 21)]
 
 CLAIMS = {
+ "C16": dict(
+    text="Coq theorems: mh draws exactly nsamples samples after nburnout steps and accepts by the documented rule; mhcustom "
+         "returns nsamples samples continuing from the burned-in state (any carrier, any step function); MathComp theorems over "
+         "any field and any derivation: uniform and normalised weights sum to one, constants are reproduced, the mean is "
+         "linear, the gradient w.r.t. parameters of f is the mean of df, the general derivative of the normalised weighted "
+         "mean is the mean of df plus the covariance (score-function) term - the two integrals of the backward pass - and "
+         "unused parameters get zero. The sampler model runs at IEEE binary64 bit for bit against the public mcquad (mhcustom "
+         "steps; mh with injected random streams): sample sequence and value.",
+    note="Trusted: Coq kernel + vm_compute + PrimFloat; harness (stream injection). Gradient values (1st/2nd order, object-held "
+         "and unused parameters, deterministic 1-D sampler) are compared with explicit autograd of the same weighted sums on the "
+         "implementation; the statistical quality of Metropolis sampling is not claimed.",
+    technique="Coq/MathComp proof (lists; bigop algebra under an arbitrary derivation) + bit-exact float model correspondence",
+    ref="DESIGN.md section 7, C16"),
  "C09": dict(
     text="Coq theorems over the model of the parameter de-duplication and substitution machinery: mapping the unique "
          "parameters back gives every slot its own tensor, the unique list has each distinct tensor once, aliasing is "
